@@ -20,15 +20,15 @@ def run_config(chk, tier, cfgname):
                 "from Sleeping performs exactly one whole cycle and from mid-cycle finishes the current one.")
     chk.not_decided += ["equality 'undestructed set = reachable set' over concrete histories and graph shapes",
                         "total_gc_count arithmetic (C10 covers the pairing)"]
-    typestate.apply(chk, "sweep-outcome-table", "sweep_one")
+    typestate.apply(chk, "sweep-outcome-table", "sweep_one", aspects=("safety", "reclaim"))
     for t in ("trace", "trace_weak", "resurrect", "backward_barrier", "backward_barrier_weak", "forward_barrier",
               "forward_barrier_weak", "upgrade", "link", "mark_one"):
-        typestate.apply(chk, "colour-moves:" + t, t)
+        typestate.apply(chk, "colour-moves:" + t, t, aspects=("safety",))
     n = common.confined(chk, prog, "set_color-confined", "gc_ptr::GcHeader::set_color", TABLE_ENTRIES,
                         "colour written outside the analysed primitives")
     chk.floor("set_color-sites", n, 6)
     common.protocol_rows(chk, prog, "finish_cycle-whole-cycles", ["finish_cycle"])
-    typestate.report_automaton(chk, ["S3", "S2"])
+    typestate.report_automaton(chk, ["S3", "S3r", "S2"])
     # shell clause as typestate paths
     A = typestate.auto(cfgname)
     shell_made = [t for t in A.trans if t.op == "collector:sweep_one" and t.src[1] == "WW" and t.src[2] == 1
